@@ -174,3 +174,280 @@ Proof.
   destruct (run_op op objs (s, [])) as [[s' lg] code]. rewrite H. cbn [fst].
   rewrite IH. destruct (run_ops ops s') as [s'' out]. reflexivity.
 Qed.
+
+(* ---- an abort / invalid policy leaves the store as the embedded check left it ---- *)
+Lemma spec_one_stop op inner dm o s s' e :
+  spec_one op inner dm o s = (s', SStop e) ->
+  exists st, ostate o = Some st /\ s' = fst (spec_presence o st s).
+Proof.
+  unfold spec_one. destruct (if inner then oskip_inner o else skipped o); [discriminate|].
+  destruct (ostate o) as [st|]; [|discriminate]. intros H. exists st. split; [reflexivity|].
+  destruct (spec_presence o st s) as [s1 [ex|]]; cbn [fst].
+  - destruct (doc_to_action op (spec_action op ex (default dm (omode o)))); try congruence.
+    destruct (spec_effect op o st ex s1); congruence.
+  - congruence.
+Qed.
+
+(* the embedded check alters nothing unless check_mode says "force" for the root's situation *)
+Lemma spec_presence_no_force o st s :
+  (fst (sget s (okey o)) = true -> fst (ocheck o) <> Lf) ->
+  (fst (sget s (okey o)) = false -> snd (ocheck o) <> Lf) ->
+  fst (spec_presence o st s) = s.
+Proof.
+  unfold spec_presence. intros H1 H2. destruct (oskip_inner o); [reflexivity|].
+  destruct (sget s (okey o)) as [root names]. cbn [fst] in *. destruct root; cbn [negb].
+  - destruct (fst (ocheck o)); try reflexivity. now specialize (H1 eq_refl).
+  - destruct (snd (ocheck o)); try reflexivity. now specialize (H2 eq_refl).
+Qed.
+
+Theorem abort_alters_nothing op inner dm o s s' e :
+  spec_one op inner dm o s = (s', SStop e) ->
+  (fst (sget s (okey o)) = true -> fst (ocheck o) <> Lf) ->
+  (fst (sget s (okey o)) = false -> snd (ocheck o) <> Lf) ->
+  s' = s.
+Proof.
+  intros H H1 H2. destruct (spec_one_stop _ _ _ _ _ _ _ H) as [st [_ ->]].
+  now apply spec_presence_no_force.
+Qed.
+
+(* ... and when it forces, all it does is (re)create the object's root *)
+Lemma spec_presence_frame o st s k : k <> okey o -> sget (fst (spec_presence o st s)) k = sget s k.
+Proof.
+  intros Hk. unfold spec_presence. destruct (oskip_inner o); [reflexivity|].
+  destruct (sget s (okey o)) as [root names]. destruct root; cbn [negb].
+  - destruct (fst (ocheck o)); cbn [fst]; try reflexivity. now apply sget_sset_other.
+  - destruct (snd (ocheck o)); cbn [fst]; try reflexivity. now apply sget_sset_other.
+Qed.
+
+(* ---- frame: an operation changes only entries of objects it addresses ---- *)
+Lemma spec_effect_frame op o st ex s s2 k :
+  spec_effect op o st ex s = inl s2 -> k <> okey o -> sget s2 k = sget s k.
+Proof.
+  unfold spec_effect. intros H Hk. destruct (sget s (okey o)) as [root names].
+  destruct op; try (injection H as <-; reflexivity).
+  - destruct (snd st); [injection H as <-; now apply sget_sset_other|].
+    destruct ex; [injection H as <-; now apply sget_sset_other|].
+    destruct root; [injection H as <-; now apply sget_sset_other | discriminate].
+  - destruct (snd st); injection H as <-; now apply sget_sset_other.
+Qed.
+
+Lemma spec_one_frame op inner dm o s k :
+  k <> okey o -> sget (fst (spec_one op inner dm o s)) k = sget s k.
+Proof.
+  intros Hk. unfold spec_one. destruct (if inner then oskip_inner o else skipped o); [reflexivity|].
+  destruct (ostate o) as [st|]; [|reflexivity].
+  pose proof (spec_presence_frame o st s k Hk) as Hp.
+  destruct (spec_presence o st s) as [s1 [ex|]]; cbn [fst] in *; [|exact Hp].
+  destruct (doc_to_action op (spec_action op ex (default dm (omode o)))); cbn [fst]; try exact Hp.
+  destruct (spec_effect op o st ex s1) as [s2|] eqn:E; cbn [fst]; [|exact Hp].
+  rewrite (spec_effect_frame _ _ _ _ _ _ _ E Hk). exact Hp.
+Qed.
+
+Lemma spec_one_unaddressed op (inner : bool) dm o s :
+  (if inner then oskip_inner o else skipped o) = true \/ ostate o = None ->
+  spec_one op inner dm o s = (s, SNext).
+Proof.
+  unfold spec_one. intros [H|H]; rewrite H; [reflexivity|].
+  destruct (if inner then oskip_inner o else skipped o); reflexivity.
+Qed.
+
+Lemma spec_iterate_frame f objs k :
+  (forall o s, In o objs -> k <> okey o -> sget (fst (f o s)) k = sget s k) ->
+  (forall o, In o objs -> k <> okey o) ->
+  forall s, sget (fst (spec_iterate f objs s)) k = sget s k.
+Proof.
+  induction objs as [|o objs IH]; intros Hf Hk s; cbn [spec_iterate]; [reflexivity|].
+  pose proof (Hf o s (or_introl eq_refl) (Hk o (or_introl eq_refl))) as H1.
+  destruct (f o s) as [s1 r]. cbn [fst] in H1. destruct r; cbn [fst]; [|exact H1].
+  rewrite IH; [exact H1| |]; intros; [apply Hf | apply Hk]; try right; assumption.
+Qed.
+
+Lemma spec_check_frame objs k :
+  (forall o, In o objs -> k <> okey o) -> forall s, sget (fst (spec_check objs s)) k = sget s k.
+Proof.
+  induction objs as [|o objs IH]; intros Hk s; cbn [spec_check]; [reflexivity|].
+  assert (Hrest : forall o', In o' objs -> k <> okey o') by (intros; apply Hk; now right).
+  assert (Ho : k <> okey o) by (apply Hk; now left).
+  destruct (skipped o); [now apply IH|]. destruct (ostate o) as [st|]; [|now apply IH].
+  destruct (sget s (okey o)) as [root names]. destruct root; cbn [negb].
+  - destruct (fst (ocheck o)); cbn [fst];
+      match goal with
+      | |- context [if ?b then _ else _] => destruct b; cbn [fst]; rewrite ?IH by assumption;
+                                            rewrite ?sget_sset_other by assumption; reflexivity
+      end.
+  - destruct (snd (ocheck o)); cbn [fst]; try reflexivity.
+    match goal with
+    | |- context [if ?b then _ else _] => destruct b; cbn [fst]; rewrite ?IH by assumption;
+                                          rewrite ?sget_sset_other by assumption; reflexivity
+    end.
+Qed.
+
+Theorem spec_run_op_frame op objs s k :
+  (forall o, In o objs -> k <> okey o) -> sget (fst (spec_run_op op objs s)) k = sget s k.
+Proof.
+  intros Hk. unfold spec_run_op. destruct op.
+  - pose proof (spec_check_frame objs k Hk s) as H. destruct (spec_check objs s); exact H.
+  - pose proof (spec_iterate_frame (spec_one OGet false (Lr, La)) objs k
+                  (fun o s _ Ho => spec_one_frame _ _ _ _ _ _ Ho) Hk s) as H.
+    destruct (spec_iterate _ objs s); exact H.
+  - pose proof (spec_iterate_frame (spec_one OSet false (Lf, Lf)) objs k
+                  (fun o s _ Ho => spec_one_frame _ _ _ _ _ _ Ho) Hk s) as H.
+    destruct (spec_iterate _ objs s); exact H.
+  - pose proof (spec_iterate_frame (spec_one OUnset false (Lf, Li)) objs k
+                  (fun o s _ Ho => spec_one_frame _ _ _ _ _ _ Ho) Hk s) as H.
+    destruct (spec_iterate _ objs s); exact H.
+  - assert (Hf : forall o s, In o objs -> k <> okey o -> sget (fst (spec_push_one o s)) k = sget s k).
+    { intros o s0 _ Ho. unfold spec_push_one. destruct (ostate o) as [[n [|]]|]; try reflexivity.
+      now apply spec_one_frame. }
+    pose proof (spec_iterate_frame spec_push_one objs k Hf Hk s) as H.
+    destruct (spec_iterate _ objs s); exact H.
+  - assert (Hf : forall o s, In o objs -> k <> okey o -> sget (fst (spec_pop_one o s)) k = sget s k).
+    { intros o s0 _ Ho. unfold spec_pop_one. destruct (ostate o) as [[n [|]]|]; try reflexivity.
+      pose proof (spec_one_frame OGet true (Lr, La) o s0 k Ho) as H1.
+      destruct (spec_one OGet true (Lr, La) o s0) as [s1 r]. cbn [fst] in H1.
+      destruct r; cbn [fst]; [|exact H1]. rewrite spec_one_frame by assumption. exact H1. }
+    pose proof (spec_iterate_frame spec_pop_one objs k Hf Hk s) as H.
+    destruct (spec_iterate _ objs s); exact H.
+Qed.
+
+(* ---- every backend call is about an addressed object ---- *)
+Definition keyed (k : N) (lg lg' : list call) : Prop :=
+  forall x, In x lg' -> In x lg \/ call_key x = k.
+
+Lemma keyed_refl k lg : keyed k lg lg.
+Proof. intros x H; now left. Qed.
+
+Ltac keyed_solve :=
+  unfold keyed, logc; cbn [fst snd]; let Hin := fresh "Hin" in intros ? Hin; cbn [In] in Hin;
+  repeat match goal with
+         | H : _ \/ _ |- _ => destruct H
+         end; subst; cbn [call_key]; auto.
+
+Lemma check_body_keyed d o st c :
+  keyed (okey o) (snd c) (snd (fst (check_body d o st c))).
+Proof.
+  unfold check_body. destruct c as [s lg]. unfold logc, b_set_root, b_unset_root. cbn [fst snd].
+  destruct (fst (sget s (okey o))); cbn [negb].
+  - destruct (fst (ocheck o)); cbn [fst snd];
+      try (destruct d; destruct (otyp o); cbn [fst snd]);
+      destruct (snd st); cbn [fst snd]; keyed_solve.
+  - destruct (snd (ocheck o)); cbn [fst snd]; try (destruct (snd st); cbn [fst snd]); keyed_solve.
+Qed.
+
+Lemma inner_check_keyed o st c :
+  keyed (okey o) (snd c) (snd (fst (inner_check o st c))).
+Proof.
+  unfold inner_check. destruct (oskip_inner o); [apply keyed_refl | apply check_body_keyed].
+Qed.
+
+Lemma keyed_trans k a b c : keyed k a b -> keyed k b c -> keyed k a c.
+Proof. intros H1 H2 x Hx. destruct (H2 x Hx) as [H|H]; auto. Qed.
+
+Lemma get_one_keyed inner dm o c : keyed (okey o) (snd c) (snd (fst (get_one inner dm o c))).
+Proof.
+  unfold get_one. destruct (if inner then oskip_inner o else skipped o); [apply keyed_refl|].
+  destruct (ostate o) as [st|]; [|apply keyed_refl].
+  pose proof (inner_check_keyed o st c) as H. destruct (inner_check o st c) as [c1 r]. cbn [fst] in H.
+  destruct (finish_check r) as [ex|]; [|exact H].
+  destruct (get_dispatch ex (default dm (omode o))); cbn [fst]; try exact H.
+  eapply keyed_trans; [exact H|]. destruct (snd st); keyed_solve.
+Qed.
+
+Lemma unset_one_keyed inner dm o c : keyed (okey o) (snd c) (snd (fst (unset_one inner dm o c))).
+Proof.
+  unfold unset_one. destruct (if inner then oskip_inner o else skipped o); [apply keyed_refl|].
+  destruct (ostate o) as [st|]; [|apply keyed_refl].
+  pose proof (inner_check_keyed o st c) as H. destruct (inner_check o st c) as [c1 r]. cbn [fst] in H.
+  destruct (finish_check r) as [ex|]; [|exact H].
+  destruct (unset_dispatch ex (default dm (omode o))); cbn [fst]; try exact H.
+  eapply keyed_trans; [exact H|]. destruct (snd st); keyed_solve.
+Qed.
+
+Lemma set_one_keyed inner dm o c : keyed (okey o) (snd c) (snd (fst (set_one inner dm o c))).
+Proof.
+  unfold set_one. destruct (if inner then oskip_inner o else skipped o); [apply keyed_refl|].
+  destruct (ostate o) as [st|]; [|apply keyed_refl].
+  pose proof (inner_check_keyed o st c) as H. destruct (inner_check o st c) as [c1 r]. cbn [fst] in H.
+  destruct (finish_check r) as [ex|]; [|exact H].
+  destruct (set_dispatch ex (default dm (omode o))); cbn [fst]; try exact H.
+  eapply keyed_trans; [exact H|]. unfold logc, b_unset_root, b_unset, b_set_root, b_set. cbn [fst snd].
+  destruct ex; destruct (snd st); cbn [fst snd]; try destruct (osourced o); cbn [fst snd];
+    try destruct (fst (sget (fst c1) (okey o))); cbn [fst snd]; keyed_solve.
+Qed.
+
+Definition addressed_keyed (op : opkind) (objs : list obj) (lg lg' : list call) : Prop :=
+  forall x, In x lg' -> In x lg \/ exists o, In o objs /\ okey o = call_key x /\ addressed op o = true.
+
+Lemma one_step_addressed (op : opkind) (f : obj -> ctx -> ctx * sres) :
+  (forall o c, keyed (okey o) (snd c) (snd (fst (f o c)))) ->
+  (forall o c, addressed op o = false -> snd (fst (f o c)) = snd c) ->
+  forall objs c, addressed_keyed op objs (snd c) (snd (fst (iterate f objs c))).
+Proof.
+  intros Hk Hu objs. induction objs as [|o objs IH]; intros c; cbn [iterate].
+  - intros x Hx. now left.
+  - pose proof (Hk o c) as H1. pose proof (Hu o c) as H2.
+    destruct (f o c) as [c1 r]. cbn [fst] in *.
+    assert (Hstep : addressed_keyed op (o :: objs) (snd c) (snd c1)).
+    { intros x Hx. destruct (addressed op o) eqn:Ea.
+      - destruct (H1 x Hx) as [Hin|Hkey]; [now left|]. right. exists o. repeat split; auto. now left.
+      - rewrite (H2 eq_refl) in Hx. now left. }
+    destruct r; cbn [fst]; [|exact Hstep].
+    intros x Hx. destruct (IH c1 x Hx) as [Hin|[o' [Ho' Hr]]].
+    + apply Hstep, Hin.
+    + right. exists o'. split; [now right | exact Hr].
+Qed.
+
+Theorem run_op_calls_addressed op objs c :
+  addressed_keyed op objs (snd c) (snd (fst (run_op op objs c))).
+Proof.
+  unfold run_op. destruct op.
+  - (* check *)
+    assert (H : forall objs c, addressed_keyed OCheck objs (snd c) (snd (fst (check_states objs c)))).
+    { clear. induction objs as [|o objs IH]; intros c; cbn [check_states].
+      - intros x Hx; now left.
+      - assert (Hw : forall c' : ctx, addressed_keyed OCheck objs (snd c) (snd c') ->
+                                addressed_keyed OCheck (o :: objs) (snd c) (snd c')).
+        { intros c' Hc x Hx. destruct (Hc x Hx) as [?|[o' [? ?]]]; [now left|].
+          right. exists o'. split; [now right | assumption]. }
+        destruct (skipped o) eqn:Es; [apply Hw, IH|].
+        destruct (ostate o) as [st|] eqn:Est; [|apply Hw, IH].
+        pose proof (check_body_keyed true o st c) as Hb.
+        destruct (check_body true o st c) as [c1 r]. cbn [fst] in Hb.
+        assert (Hstep : addressed_keyed OCheck (o :: objs) (snd c) (snd c1)).
+        { intros x Hx. destruct (Hb x Hx) as [?|Hkey]; [now left|]. right. exists o.
+          repeat split; auto; [now left|]. unfold addressed. rewrite Est, Es. reflexivity. }
+        destruct r; cbn [fst]; try exact Hstep.
+        intros x Hx. destruct (IH c1 x Hx) as [Hin|[o' [Ho' Hr]]].
+        + apply Hstep, Hin.
+        + right. exists o'. split; [now right | exact Hr]. }
+    specialize (H objs c). destruct (check_states objs c). exact H.
+  - pose proof (one_step_addressed OGet (get_one false (Lr, La)) (get_one_keyed _ _)) as H.
+    assert (Hu : forall o c, addressed OGet o = false -> snd (fst (get_one false (Lr, La) o c)) = snd c).
+    { intros o c0 Ha. unfold get_one, addressed in *. destruct (ostate o); destruct (skipped o); try discriminate; reflexivity. }
+    specialize (H Hu objs c). destruct (iterate _ objs c). exact H.
+  - pose proof (one_step_addressed OSet (set_one false (Lf, Lf)) (set_one_keyed _ _)) as H.
+    assert (Hu : forall o c, addressed OSet o = false -> snd (fst (set_one false (Lf, Lf) o c)) = snd c).
+    { intros o c0 Ha. unfold set_one, addressed in *. destruct (ostate o); destruct (skipped o); try discriminate; reflexivity. }
+    specialize (H Hu objs c). destruct (iterate _ objs c). exact H.
+  - pose proof (one_step_addressed OUnset (unset_one false (Lf, Li)) (unset_one_keyed _ _)) as H.
+    assert (Hu : forall o c, addressed OUnset o = false -> snd (fst (unset_one false (Lf, Li) o c)) = snd c).
+    { intros o c0 Ha. unfold unset_one, addressed in *. destruct (ostate o); destruct (skipped o); try discriminate; reflexivity. }
+    specialize (H Hu objs c). destruct (iterate _ objs c). exact H.
+  - assert (Hk : forall o c, keyed (okey o) (snd c) (snd (fst (push_one o c)))).
+    { intros o c0. unfold push_one. destruct (ostate o) as [[n [|]]|]; try apply keyed_refl. apply set_one_keyed. }
+    assert (Hu : forall o c, addressed OPush o = false -> snd (fst (push_one o c)) = snd c).
+    { intros o c0 Ha. unfold push_one, set_one, addressed in *.
+      destruct (ostate o) as [[n [|]]|]; try reflexivity. cbn [snd negb andb] in Ha.
+      destruct (oskip_inner o); [reflexivity | discriminate]. }
+    pose proof (one_step_addressed OPush push_one Hk Hu objs c) as H. destruct (iterate _ objs c). exact H.
+  - assert (Hk : forall o c, keyed (okey o) (snd c) (snd (fst (pop_one o c)))).
+    { intros o c0. unfold pop_one. destruct (ostate o) as [[n [|]]|]; try apply keyed_refl.
+      pose proof (get_one_keyed true (Lr, La) o c0) as H1.
+      destruct (get_one true (Lr, La) o c0) as [c1 r]. cbn [fst] in H1. destruct r; [|exact H1].
+      eapply keyed_trans; [exact H1 | apply unset_one_keyed]. }
+    assert (Hu : forall o c, addressed OPop o = false -> snd (fst (pop_one o c)) = snd c).
+    { intros o c0 Ha. unfold pop_one, get_one, unset_one, addressed in *.
+      destruct (ostate o) as [[n [|]]|]; try reflexivity. cbn [snd negb andb] in Ha.
+      destruct (oskip_inner o); [reflexivity | discriminate]. }
+    pose proof (one_step_addressed OPop pop_one Hk Hu objs c) as H. destruct (iterate _ objs c). exact H.
+Qed.
